@@ -101,7 +101,7 @@ def run(ctx):
     outer = loops_[0] if loops_ else None
     ai = AI(G, obs, partition=part, max_parts=700, inline=inline, loop_once=lambda l: l is outer,
             unroll=lambda fn: qn(fn) == 'cctz::detail::Format64', assume_returns=assume, assume_member=member,
-            method_model={'count': m_count}, max_depth=6)
+            method_model={'count': m_count}, max_depth=6, auto_unroll=True, value_numbers=True)
     st = St()
     ps = params_of(f)
     for p in ps:
@@ -201,10 +201,14 @@ def run(ctx):
         def overflow(self, ai_, e, val, it, st_):
             self.ovf.append((e, val, it))
 
+    from ..callgraph import fkey as _fkey
+    tm_scope = set(_fkey(ff_)[0] for (uu_, ff_) in ctx.scope(ft) if 'year' not in _fkey(ff_)[0].split('::')[-1].lower() or
+                   (ff_.get('_pos') or ('',))[0].endswith('time_zone_format.cc'))
+
     def tm_year_for(lo, hi):
         o = _TmObs()
         ai2 = AI(G, o, assume_returns={'cctz::detail::civil_time<second_tag>::year': Int(lo, hi)}, pure_memo=True,
-                 inline=lambda k_: k_[0] in ('cctz::detail::ToTM',))
+                 inline=lambda k_: k_[0] in tm_scope)
         st2 = St()
         st2.refs[params_of(ft)[0]['id']] = ('AL',)
         res2 = ai2.analyse(kt, st2)
